@@ -211,6 +211,28 @@ class Gen:
                 mat, cb = self._confusion([dims[i]])
                 cmap = {(i,): mat}
             bits += cb
+            if len(qs) >= 2 and self.t.chance(1, 3, "confusion-second-group?"):
+                # a second index group: disjoint from the first, or sharing an index with it (each matrix
+                # reads the measured digits; where two write the same digit the later group wins)
+                (first,) = cmap
+                others = [x for x in range(len(qs)) if x not in first]
+                if others and self.t.chance(1, 2, "disjoint?"):
+                    j2 = self._pick(others, "conf-idx2")
+                    mat2, cb2 = self._confusion([dims[j2]])
+                    cmap[(j2,)] = mat2
+                    self.features.add("confusion-two-groups")
+                elif len(first) == 1 and others:
+                    j2 = self._pick(others, "conf-idx2")
+                    grp = (first[0], j2) if self.t.chance(1, 2, "conf-order?") else (j2, first[0])
+                    mat2, cb2 = self._confusion([dims[x] for x in grp])
+                    cmap[grp] = mat2
+                    self.features.add("confusion-overlapping-groups")
+                else:
+                    i2 = first[self.t.draw(len(first), "conf-idx2")]
+                    mat2, cb2 = self._confusion([dims[i2]])
+                    cmap[(i2,)] = mat2
+                    self.features.add("confusion-overlapping-groups")
+                bits += cb2
         if self.leaf_bits + bits > self.cap:
             return None
         self.leaf_bits += bits
